@@ -59,6 +59,13 @@ CHECKS['C19'] = dict(
 	note='Trusts: a killed process leaves exactly the effects of its completed system calls (page-multiple prefix for a torn write); power-loss reordering/page-cache loss not modelled; '
 	     'h5py/libhdf5 as installed; pwkill interposes libc write-class calls reached through the PLT (verified for the h5py wheel).')
 
+CHECKS['C20'] = dict(
+	category='exploration', design_ref='DESIGN.md 4.9',
+	technique='seeded operation histories on the mutable list-backed collection against a reference list model, with NumPy object-array indexing as selection model; no fault kinds exist for this property',
+	text='Claimed for the history half of the quantifier only: seeded sequences of up to 30 list mutations (incl. out-of-range positions, which must raise exactly as a list does) interleaved with observation rounds on the list-backed, the in-memory concatenated and a re-loaded file-backed collection. '
+	     'The index-expression half is evaluated only as the observations of those histories - for it the check is a generator with a model, not something simulation decides. No fault, schedule or clock exists for this property (fault_kinds_fired is empty by construction).',
+	note='Trusts: Python list semantics and NumPy object-array indexing as reference models; IndexError and TypeError are both accepted for ill-typed/out-of-range indices; tuples, 0-d arrays, remove()/index() not generated.')
+
 NOT_APPLICABLE = {
 	'C01': 'pure function of (k, prefix, sequence bytes, container type, accumulator): no schedule, fault, clock or persistent state can change it; input generation against a second definition is property-based testing, not simulation',
 	'C02': 'pure function of two sorted arrays; nothing a simulator decides (order, fault, time) enters',
